@@ -164,6 +164,9 @@ pub fn install_crash_capture(path: &std::path::Path, case_timeout_s: u64) {
     std::panic::set_hook(Box::new(|info| {
         let msg = format!("PANIC {}", info.to_string().replace('\n', " "));
         eprintln!("{}", msg);
+        // a panic raised inside the code under test (a file below /repo) is a finding about the subject, not an engine failure
+        let in_subject = info.location().map(|l| l.file().starts_with("/repo/")).unwrap_or(false);
+        if in_subject { write_crash_and_exit(&format!("SUBJECT-{}", msg), 99); }
         write_crash_and_exit(&msg, 97);
     }));
 }
@@ -269,6 +272,7 @@ fn classify_crash(kind: &str, err: &str) -> String {
     if err.contains("ThreadSanitizer") { return "tsan".into(); }
     if err.contains("runtime error:") { return "ubsan".into(); }
     if err.contains("Assertion") { return "assert".into(); }
+    if kind.starts_with("SUBJECT-PANIC") { return "panic-in-subject".into(); }
     kind.to_string()
 }
 fn tail(p: &std::path::Path, n: usize) -> String {
